@@ -40,6 +40,14 @@ func H_C19_expire() {
 		_, err := txn.CreateIndex(hMain, "", mongokit.IndexConfig{Key: &bson.D{{Key: "t", Value: int32(1)}}, Expiry: expiry})
 		vf.Assume(err == nil)
 	}
+	// optionally a second TTL index on another field (u) with its own interval
+	two := hasTTL && vf.Param("two", 0) == 1
+	expiry2 := time.Hour
+	if two {
+		expiry2 = []time.Duration{time.Second, time.Hour}[vf.Choice("expiry2", 2)]
+		_, err := txn.CreateIndex(hMain, "", mongokit.IndexConfig{Key: &bson.D{{Key: "u", Value: int32(1)}}, Expiry: expiry2})
+		vf.Assume(err == nil)
+	}
 	if vf.Bool("otherIndex") {
 		_, err := txn.CreateIndex(hMain, "", mongokit.IndexConfig{Key: &bson.D{{Key: "a", Value: int32(1)}}})
 		vf.Assume(err == nil)
@@ -67,6 +75,9 @@ func H_C19_expire() {
 		if vf.Bool(id + ".hasT") {
 			d = append(d, bson.E{Key: "t", Value: vf.Value(id+".t", "", 2, ttags, 1)})
 		}
+		if two && vf.Bool(id+".hasU") {
+			d = append(d, bson.E{Key: "u", Value: vf.Value(id+".u", "", 0, vf.TDate|vf.TInt32, 0)})
+		}
 		res, err := txn.Insert(hMain, bsonkit.List{&d}, true)
 		vf.Assume(err == nil && res.Error == nil)
 	}
@@ -88,6 +99,14 @@ func H_C19_expire() {
 		}
 		older0, _ := containsDateBefore(bsonkit.Get(d, "t"), t0-ms)
 		older1, _ := containsDateBefore(bsonkit.Get(d, "t"), t1-ms)
+		if two {
+			// each TTL index applies its own interval to its own field
+			ms2 := primitive.DateTime(expiry2 / time.Millisecond)
+			u0, _ := containsDateBefore(bsonkit.Get(d, "u"), t0-ms2)
+			u1, _ := containsDateBefore(bsonkit.Get(d, "u"), t1-ms2)
+			older0 = older0 || u0
+			older1 = older1 || u1
+		}
 		if !hasTTL {
 			vf.Assert(!gone, "a document was removed from a collection without TTL index")
 			continue
